@@ -20,6 +20,12 @@ part "text": every string over {a, b, space, U+3042 (wide), U+0301 (zero width),
 
 Finding keys: "range/<clause>/<kind of the deepest node whose own measurement is out of range>", "fit/<C01 blame key>" (e.g. "fit/table/leading"),
 "text/min", "text/max", "text/max/blank-lines", "text/wrap-at-max", "crash/<Type>/<file>:<function>".
+
+Measured (machine shared with ~15 other agents, load average 80-160, VF_WORKERS=4; CPU time is the figure):
+    quick     26 k trees + 9 331 strings, 1 000 630 Measurement.get / wrap evaluations (+ ~250 k feedback renders),
+              236 outcome signatures (154 non-trivial), ~470 CPU-s (~30 s on 16 cores)
+    thorough  111 k trees + 335 923 strings, 13 700 858 evaluations, 249 signatures (162 non-trivial),
+              ~3 000 CPU-s (~3.5 min on 16 cores)
 """
 import itertools
 import os
